@@ -1202,5 +1202,52 @@ def skeleton_dfa(pattern, markers=None) -> DFA:
 
 
 def cuts(pattern) -> list:
-    """possessive / atomic constructs in the pattern (they make the search miss texts the language contains)"""
-    return list(compile_pattern(pattern, "any", "any").cuts)
+    """possessive / atomic constructs of the pattern that can make the search miss (or shorten) a text its language contains.
+    A cut is harmless - and not listed - in two shapes, both outside any repeat or assertion: a possessive repeat of one
+    character class whose class is disjoint from the first bytes of everything that follows (giving back a byte could never
+    help), and a possessive / atomic construct with nothing after it (there is nothing to backtrack for)."""
+    tree, fl, _notes = parse(pattern)
+    out = []
+    POSS = getattr(sc, "POSSESSIVE_REPEAT", None)
+    ATOM = getattr(sc, "ATOMIC_GROUP", None)
+
+    def first_of(items, fl):
+        if not items:
+            return 0
+        try:
+            return first_bytes(compile_tree(items, fl).dfa)
+        except RxError:
+            return FULL
+
+    def walk(items, fl, cont, nested):
+        items = list(items)
+        for i, (op, av) in enumerate(items):
+            follow = items[i + 1:] + cont
+            if POSS is not None and op is POSS:
+                _lo, _hi, sub = av
+                m = _single_class(list(sub), fl)
+                if nested:
+                    ok = False
+                elif m is not None:
+                    ok = first_of(follow, fl) & m == 0
+                else:
+                    ok = not follow
+                if not ok:
+                    out.append("possessive repeat" + (" inside a repeat" if nested else " followed by text it could have given back"))
+                walk(list(sub), fl, [], True)
+            elif ATOM is not None and op is ATOM:
+                if nested or follow:
+                    out.append("atomic group")
+                walk(list(av), fl, [], True)
+            elif op is sc.SUBPATTERN:
+                _g, add, dele, sub = av
+                walk(list(sub), (fl | add) & ~dele, follow if add == 0 and dele == 0 else follow, nested)
+            elif op is sc.BRANCH:
+                for alt in av[1]:
+                    walk(list(alt), fl, follow, nested)
+            elif op in (sc.MAX_REPEAT, sc.MIN_REPEAT):
+                walk(list(av[2]), fl, [], True)
+            elif op in (sc.ASSERT, sc.ASSERT_NOT):
+                walk(list(av[1]), fl, [], True)
+    walk(list(tree), fl, [], False)
+    return out
